@@ -16,12 +16,13 @@ LEVEL_TEXT = ('partial. Lean 4 theorems, for all cubes/patterns/oversampling/fra
               'the Bayer mosaic (np.tile then np.repeat on both axes) has the image shape when the size is a multiple of d*os (one-row '
               'non-multiples are broadcast to an empty result by NumPy: modelled, outside the quantifier) and assigns to sub-pixel (i,j) the colour '
               'pattern[(i/os)%d][(j/os)%d]; equal QEs reproduce the monochrome result and the channels sum to the flat image; DN = max 0 (floor '
-              '(gain polynomial at the clipped count)) for the four gain forms, never rounded up, non-negative, monotone for every gain curve that '
+              '(gain polynomial at the clipped count)) for the four gain forms with the exponents of the source power cube, steps in source order, never rounded up, refusal of a Bayer image iff its size is not a multiple (>= 2 rows/cols), non-negative, monotone for every gain curve that '
               'is non-decreasing on [0, cap], warning iff a pixel exceeds capacity. Hand model checked against lentil.detector on exact dyadic data.')
 LEVEL_NOTE = ('partial: "input frame untouched" and "requested dtype" are observed by the correspondence (read-only, snapshotted '
               'frames; dtype compared) and by the regenerated effect table of C10, not proved about NumPy; a non-flat Spectrum QE agrees with a '
               'vector only through the sampled correspondence (the theorem covers flat spectra and unit invariance); float rounding is not '
-              'modelled (test data is dyadic so float64 is exact); adc/bayer index bookkeeping is hand-modelled + pinned, not translated.')
+              'modelled (test data is dyadic so float64 is exact). The Bayer tile/repeat bookkeeping, the adc gain dispatch, power-cube loop, einsum '
+              'subscripts and step order are REGENERATED from detector.py (Gen/DetectorIdx.lean): mosaic_*, adc_matches_source, power_cube_exponent depend on them.')
 TECHNIQUE = 'Lean 4 proof (omega/Int.ediv-emod, ordered-field algebra, Int.floor) over a hand model with exact differential correspondence'
 GEN = ['Effects', 'Units', 'DetectorIdx']
 OPS = ['C16']
